@@ -365,7 +365,14 @@ async def async_execute(
             # a single execution will be launched and will end.
             # it doesn't count as an additional thread that is running.
             logger.debug("Executing {} in main thread", xn.id)
-            xn.execute(results=results, profiles=profiles)
+            try:
+                xn.execute(results=results, profiles=profiles)
+            except BaseException:
+                # async-thread ExecNodes that were scheduled on the event loop but did not start yet
+                # must not start after the failure (in an AsyncDAG the event loop keeps running)
+                for async_future in async_running:
+                    async_future.cancel()
+                raise
 
             logger.debug("Remove ExecNode {} from the graph", xn.id)
             runnable_xns_ids |= graph.remove_root_node(xn.id)
